@@ -88,7 +88,7 @@ SCOPES = {
         emit=[(dict(MaxRows=3, MaxLen=3, Bound=4, MaxList=2, MaskMax=6, Pairwise="FALSE", SampleN=8, SampleK=None), 39),
               (dict(MaxRows=4, MaxLen=4, Bound=5, MaxList=2, MaskMax=4, Pairwise="TRUE", SampleN=1, SampleK=0), None)],
         mc=[(dict(MaxRows=3, MaxLen=3, Bound=4, MaxList=2, MaskMax=4, Pairwise="TRUE", SampleN=1, SampleK=0), 4, 4)],
-        long=dict(shapes=[1, 2, 3, 4, 5, 6], LongMaxSel=8, LongMaxTot=1200, sweeps=2),
+        long=dict(shapes=[1, 2, 3, 4, 5, 6], LongMaxSel=8, LongMaxTot=1200, sweeps=1),
         selftest=dict(MaxN=7, B=9)),
 }
 
